@@ -1,6 +1,6 @@
 PROPERTY = "C02"
 LEVEL = "proof"
-LEAN_MODULES = ["CifModel.Props.C02", "CifModel.Props.C02Doc", "CifModel.Props.ReviewC02"]
+LEAN_MODULES = ["CifModel.Props.C02", "CifModel.Props.C02Doc", "CifModel.Props.C02Total", "CifModel.Props.C02Column", "CifModel.Props.C02Lines", "CifModel.Props.C02Hyp", "CifModel.Props.ReviewC02"]
 REQUIRED = ["CifModel.C02_text_protocol", "CifModel.C02_fold_line_progress", "CifModel.C02_text_total",
             "CifModel.C02_flags_semis", "CifModel.C02_char_text_roundtrip",
             "CifModel.C02_analysis_facts", "CifModel.C02_write_char_text",
@@ -8,15 +8,24 @@ REQUIRED = ["CifModel.C02_text_protocol", "CifModel.C02_fold_line_progress", "Ci
             "CifModel.C02_total", "CifModel.C02_total_no_tables", "CifModel.C02_line_bound",
             "CifModel.C02_bare_value", "CifModel.C02_parse_value_roundtrip", "CifModel.C02_parse_item_roundtrip",
             "CifModel.C02_roundtrip_doc", "CifModel.C02_quoted_status", "CifModel.C02_output_units", "CifModel.C02_roundtrip_doc_instance", "CifModel.C02_roundtrip_doc_sample",
-            "CifModel.C02_roundtrip_doc_nested"]
+            "CifModel.C02_roundtrip_doc_nested",
+            "CifModel.C02_key_refused_iff", "CifModel.C02_key_step_is_the_loop", "CifModel.C02_total_iff",
+            "CifModel.C02_presented_key_writable", "CifModel.C02_refused_key_unwritable_partial",
+            "CifModel.C02_cex_key_first_line", "CifModel.C02_cex_key_first_line_refused", "CifModel.C02_key_boundary",
+            "CifModel.C02_last_column_exact", "CifModel.C02_last_column_exact_doc", "CifModel.C02_lastLineLength_spec",
+            "CifModel.C02_clean_of_line_hypotheses", "CifModel.C02_cex_column_cr", "CifModel.C02_cex_cr_written_raw",
+            "CifModel.C02_line_bound_chars", "CifModel.C02_line_hypotheses_chars", "CifModel.C02_charLength_le", "CifModel.C02_cex_line_units",
+            "CifModel.C02_roundtrip_doc_nl", "CifModel.C02_line_bound_of_valid",
+            "CifModel.C02_cex_hypotheses", "CifModel.C02_empty_loop_refused"]
 GEN = ["WriterConsts", "ErrCodes"]
-FAMILIES = ["decode", "writeval", "write"]
+FAMILIES = ["decode", "writeval", "write", "wstatic"]
 TRUSTED_BASE = [
     "Lean 4.33.0 kernel; axioms propext, Classical.choice, Quot.sound only",
     "tools/translate_writer.py: extraction of CIF_LINE_LENGTH, PREFIX, PREFIX_LENGTH, FOLDING_WINDOW, the literal 8 of target_length, "
     "the literal strings of the writer and cif11_chars[] (consumed by the link lemmas of Model/Writer.lean)",
-    "harness/x_write.c, x_decode.c, cifio.h and tools/gen/{write,writeval,decode}.py: building CIFs through the public API, recording the "
-    "walk order, cif_write to memory, cif_parse of the bytes, canonical dumps, the round-trip oracle and the reference text-field encoder",
+    "harness/x_write.c, x_wstatic.c, x_decode.c, cifio.h and tools/gen/{write,writeval,wstatic,decode}.py: building CIFs through the public API, recording the "
+    "walk order, cif_write to memory, cif_parse of the bytes, canonical dumps, the round-trip oracle, the reference text-field encoder; "
+    "x_wstatic.c #includes ciffile.c and calls its static functions on a write_context_t set up as cif_write sets it up",
     "ICU u_fprintf / u_fputc: assumed to succeed and to return the number of UTF-16 units written; UTF-16 -> UTF-8 conversion",
     "Model/Analyze.lean (group gA) as the model of cif_analyze_string (the two facts the theorems need about it are proved here: C02_analysis_facts)",
 ]
@@ -25,31 +34,49 @@ ASSUMPTIONS = [
     "'the bytes written are valid UTF-8': the model's output is the sequence of UTF-16 units handed to the UFILE; C02_output_units proves it "
     "well-formed UTF-16 (no unpaired surrogate) of CIF 2.0 characters; the conversion of well-formed UTF-16 to valid UTF-8 is ICU's "
     "(u_fprintf on a UTF-8 UFILE) and is assumed — observed per case: family write decodes the bytes strictly as UTF-8",
-    "strings contain no NUL and, for the text protocol theorems, no CR (C02 is stated for CR-free strings)",
+    "strings contain no NUL and, for the round-trip, line-bound and last_column theorems, no CR: a CR is written raw and read back as LF "
+    "(open finding F-cr-altered, C02_cex_cr_written_raw), and cif_analyze_string counts a lone CR as a line terminator where the column "
+    "accounting does not (C02_cex_column_cr)",
     "the order in which the store enumerates blocks, frames, loops, packets and items is an input of the writer model (observed per case)",
     "decode_text is modelled for a scanner without extra whitespace / end-of-line characters",
+    "number texts are one line of BMP units (numbOk): true of every number the API parses or formats (ASCII number syntax, C10)",
 ]
 PARTIAL = [
-    "C02_roundtrip_doc (whole documents against group gJ's integrated parser model) is PROVED for every callback policy: writeCif 0 cif = ok out "
-    "-> parse = CIF_OK, no report, and the blocks / frames / loops / packets / values written come back (backBlock), under cifR (allowed "
-    "characters, valid codes / names / keys, the scalar loop has one packet, an unquoted number that fits a line is a whitespace-delimited "
-    "value), blocksN (valid and pairwise different codes and names, loops with header and packets) and containersL (C02_line_bound's "
-    "hypotheses); restricted to ONE level of save frames (what Spec/Grammar documents express); the unrestricted statement stays visible as "
-    "C02_roundtrip_doc_full; quoted status is part of the equivalence (backV): quoted stays quoted, an unquoted string stays unquoted whenever the writer's "
-    "test bareWritable holds — by bareWritable_iff / C02_quoted_status the only unquoted API strings that come back quoted are those "
-    "beginning with ';' (the property's exception) and those longer than a line (known finding F-unquoted-overlong); an unquoted number "
-    "stays unquoted whenever its text fits a line",
-    "C02_line_bound is proved for whole documents (both versions, every walk order) in code UNITS (hence characters), under containersL: "
-    "codes/names fit a line, strings without NUL/CR, number texts one line of BMP units of any length",
-    "C02_total is proved for whole documents (every walk order): writable CIF -> CIF_OK, or CIF_DISALLOWED_VALUE and the CIF holds a table "
-    "entry; the sharper witness (that very key cannot be quoted with room for its colon) is checked per case by the oracle only",
+    "C02_total is now SHARP (C02_total_iff, C02_key_refused_iff): on a writable CIF cif_write (CIF 2.0) succeeds iff every table key the walk meets "
+    "satisfies keyPresented, and returns CIF_DISALLOWED_VALUE iff it meets one that does not; keyPresented is a decidable predicate on the key "
+    "alone (one line: length + 3 <= 2048 with one kind of quote missing, or length + 7 <= 2048 and triple-quotable; several lines: no line > 2048, "
+    "last + 3 < 2048, first + 3 < 2048, triple-quotable) — the column an entry starts in never matters.  It differs from the specification "
+    "keyWritable (what syntax and line limit admit) in ONE place: a multi-line key whose first line has exactly 2045 units is refused although "
+    "writable — open finding F-key-first-line (C02_cex_key_first_line; C02_refused_key_unwritable_partial proves there is no other difference)",
+    "C02_roundtrip_doc_nl: the whole-document round trip (every policy, frames nested to any depth) needs only cifR (allowed characters, valid "
+    "keys, one packet in the scalar loop, unquoted numbers are whitespace-delimited values) and blocksN (valid, pairwise different codes and "
+    "names; loops with header and complete packets) — the line-length hypothesis containersL is derived from them; every remaining conjunct is "
+    "necessary (C02_cex_hypotheses: the re-parse reports an error without it) and is an invariant of CIFs built through the API, except "
+    "'strings of CIF 2.0 characters' and 'no CR', which the API does not enforce for values: open findings F-disallowed-char-written and "
+    "F-cr-altered.  Quoted status as before (C02_quoted_status): exceptions are ';'-led unquoted strings and F-unquoted-overlong.  The "
+    "unrestricted statement stays visible as C02_roundtrip_doc_full",
+    "C02_line_bound_chars: no line of the output has more than 2048 CHARACTERS (units that do not continue a surrogate pair), for codes of <= "
+    "2043 and loop-header names of <= 2048 characters (the API's limits), item names of ANY length (the writer tests them itself), strings "
+    "without NUL / CR, number texts of BMP units; C02_line_bound (code units) is kept — its unit-length hypotheses are necessary for ITS "
+    "conclusion (C02_cex_line_units: a code of 1022 supplementary characters gives a line of 2049 units, 1027 characters)",
+    "C02_last_column_exact: after every writer step (every handler of the walk, every loop over elements / entries / items / packets / header "
+    "names / loops / containers, any depth) last_column equals the number of units written since the last line feed, both versions, no "
+    "hypothesis on lengths; needs item names and number texts without LF, strings without NUL / CR (necessary: C02_cex_column_cr); observed on "
+    "the real code by family wstatic (last_column printed after direct calls of write_text / write_char / write_item / write_literal / "
+    "write_uliteral)",
 ]
 LEVEL_TEXT = ("Proof (partial): the line-folding / text-prefix protocol is proved to be an inverse pair — for every CR-free text and every "
               "combination of the fold and prefix flags decode_text(write_text body) = text (C02_text_protocol), lifted to write_char with the "
-              "flags it derives (C02_char_text_roundtrip); fold_line is proved to make progress (never CIF_INTERNAL_ERROR). The writer and "
-              "decode_text models are tied to /repo by translated constants (link lemmas) and byte-exact differential execution of cif_write "
-              "on single values at chosen columns and on whole random CIFs, with a write -> cif_parse -> compare oracle on the real code.")
-LEVEL_NOTE = ("Whole-document round trip (C02_roundtrip_doc, every policy, save frames nested to any depth — hypothesis frameN: a frame that holds frames needs a parser with max_frame_depth ≠ 1; instance with three levels C02_roundtrip_doc_nested), line bound and totality are proved about the "
-              "models and checked per generated case by the implementation-level oracle. Trusted: Lean kernel, translator, harness/oracle, ICU "
-              "output conventions, Model/Analyze of group gA.")
+              "flags it derives (C02_char_text_roundtrip); fold_line is proved to make progress (never CIF_INTERNAL_ERROR); whole documents: "
+              "round trip against the integrated parser model under cifR and blocksN alone (C02_roundtrip_doc_nl), line bound in characters "
+              "(C02_line_bound_chars), last_column exact after every step (C02_last_column_exact), refusal exactly of the keys with "
+              "keyPresented false (C02_total_iff). The writer and decode_text models are tied to /repo by translated constants (link lemmas) "
+              "and byte-exact differential execution of cif_write on single values at chosen columns and on whole random CIFs, of the static "
+              "writer functions called directly (family wstatic, incl. fold_line's fall-back scans, which cif_write never reaches), with a "
+              "write -> cif_parse -> compare oracle on the real code.")
+LEVEL_NOTE = ("Whole-document round trip (C02_roundtrip_doc_nl: every policy, save frames nested to any depth, hypotheses cifR and blocksN only — each "
+              "necessary: C02_cex_hypotheses), line bound in characters, exact last_column and sharp totality are proved about the models and "
+              "checked per generated case by the implementation-level oracle. Open findings: F-unquoted-overlong, F-key-first-line (a writable "
+              "multi-line key refused), F-cr-altered (CR written raw), F-disallowed-char-written (CIF 2.0 mode does not validate characters). "
+              "Trusted: Lean kernel, translator, harness/oracle, ICU output conventions, Model/Analyze of group gA.")
 TECHNIQUE = "Lean 4 proof about an executable model of the writer and of decode_text, tied to the sources by translated constants and byte-exact differential execution"
